@@ -164,6 +164,15 @@ def run(tier: str, seed: int) -> int:
         raise tlc.MachineryError("negative control: a not-equals context left without restoring the templates not refuted")
     chk.coverage["negative_control"] = {"cfg": "MC_Conversion_negative.cfg (templates not restored when the conversion raises inside a NOT)",
                                         "refuted_invariant": neg.invariant_violated}
+    # objects handed from a pipeline item to the rules it processes (field lists, condition lists, added detections)
+    chk.model_check("MC_Sharing")
+    for cfg, inv in (("MC_Sharing_negative.cfg", "ConfigurationKept"), ("MC_Sharing_negative2.cfg", "EachRuleItsOwn")):
+        neg = tlc.run_tlc("MC_Sharing", cfg, workers=4, check_ok=False)
+        if neg.invariant_violated != inv:
+            raise tlc.MachineryError(f"negative control {cfg}: handing out the configured object itself not refuted")
+    chk.coverage["negative_control_sharing"] = {"cfgs": ["MC_Sharing_negative.cfg", "MC_Sharing_negative2.cfg"],
+                                                "refuted": ["ConfigurationKept", "EachRuleItsOwn"],
+                                                "mechanism": "the item hands its configured list object to every rule (set_field, add_condition, a filter's condition list before their repairs)"}
     cases = chk.generate("Gen_C08")
     obs = drive("harness.props.c08", "drive_case", cases, chunk=40)
     verdicts = chk.judge("Judge_C08", obs)
